@@ -1,3 +1,4 @@
+import GenlmModel.Proofs.GenLink.CfgTruncate
 import Batteries.Tactic.Alias
 import GenlmModel.Proofs.Fast
 import GenlmModel.Proofs.Fst
@@ -37,4 +38,9 @@ strings within the bound, with unchanged weights -/
 alias truncate_length_limit := Genlm.truncateLength_WL
 alias truncate_length_levelwise_bounds := Genlm.truncateLength_WN
 alias truncate_length_long_strings_zero := Genlm.truncateLength_WN_long
+
+/-! ## re-checked tie to the source: the definitions REGENERATED from the Python functions on every run
+(`Generated/Builders.lean` / `Generated/Folds.lean`, by `harness/translate.py`) are the hand-written models the theorems here are about -/
+alias gen_CFG_truncate_length_acceptor_eq_model := Genlm.gen_CFG_truncate_length_acceptor_eq_model
+alias gen_CFG_truncate_length_eq_model := Genlm.gen_CFG_truncate_length_eq_model
 end Genlm.Props.C09
